@@ -2,10 +2,12 @@
    src/mxlpy/meta/sympy_tools.py by harness/c17.py; do not edit.  An unrecognised shape yields an
    *Unknown constructor / empty string / false, which breaks C17_facts_pinned. *)
 From Coq Require Import String List.
-From SbmlImp Require Import SbmlImport SbmlVariants.
+From SbmlImp Require Import SbmlImport SbmlVariants SbmlClose3.
 Import ListNotations.
 Open Scope string_scope.
 Definition gen_facts : facts :=
   mkFacts "init_"%string "_stoich_"%string RxnInfixFn [SecVars; SecPars; SecDer; SecRxn] ParamsThenVars StemOnly "mb_"%string RegFresh true.
 Definition gen_facts2 : facts2 :=
   mkFacts2 RxnAll MathQualified LitRepr LitRepr LitRepr.
+Definition gen_facts3 : facts3 :=
+  mkFacts3 PrefixAlways EqExact BodyExpr.
